@@ -100,10 +100,11 @@ P("C16", "model_checking",
 P("C15", "model_checking", rac=["reject", "enum"],
   bounded="rejection matrix (464 cases, exhaustive over its finite domain); all token sequences of length <= 4 (thorough 5) over a 27-word DSL vocabulary and of length <= 7 (thorough 8) over an 8-word wrapper/step vocabulary: outcome class never `internal panic`, accepted inputs expand to a Rust expression",
   not_decided="totality of syn itself; longer inputs")
-P("C20", "other", rac=["purity"],
+P("C20", "other", rac=["purity"], frame_audit=True,
   explanation="repeated, interleaved and concurrent (4 threads) library-level expansions of the same input are compared token for token (bounded stand-in); engine V's functional postconditions (out == spec(args)) prove determinism for the contracted functions only",
   bounded="4 inputs x applicable kinds x 12 (thorough 50) repetitions + 16 concurrent expansions each",
-  not_decided="the uncontracted generator core for inputs outside the samples; cross-process histories")
+  unbounded="frame audit (syntactic, every run): join_impl / join contain no static mut, thread_local!, lazy_static!, lazily initialised global, static with interior mutability, ambient input or hash collection - so the expansion has nothing but its arguments to depend on (given A4)",
+  not_decided="purity of syn / proc_macro2 themselves (A4); if the audit ever finds one of those constructs the check answers UNDECIDED unless sampling finds a violation")
 P("C14", "model_checking", rac=["structure"],
   bounded="parsed chain structure == structure the input was rendered from: 22 operators x deferred x 12 (thorough 20) operand shapes, all adjacent operator pairs x 4 deferred patterns, 10 wrappers x 22 inner operators x 3 closing shapes",
   not_decided="operands outside the pool; split-point logic inside syn")
